@@ -277,6 +277,23 @@ def edits(root, sm):
                     d.text = "1"
                     e.append(d)
                 add("R8:unkeyed-default-on-wildcard", depth, f)
+
+                def f(root, at=at):
+                    at(root).append(mk("default"))          # no text at all
+                add("R8:unkeyed-empty-default-on-wildcard", depth, f)
+            if it.tag in ("key", "multikey") and name != "+":
+                def f(root, at=at):
+                    e = at(root)
+                    e.append(mk("default", key="kk"))       # keyed, no text at all
+                    e.attrib.pop("default", None)
+                add("R8:keyed-empty-default-on-plain-%s" % it.tag, depth, f)
+            if it.tag == "key" and name != "+":
+                def f(root, at=at):
+                    e = at(root)
+                    e.append(mk("default"))
+                    e.attrib.pop("default", None)
+                    e.attrib.pop("required", None)
+                add("R8:empty-default-element-on-plain-key", depth, f)
             if it.tag == "key" and name == "+":
                 def f(root, at=at):
                     e = at(root)
@@ -599,6 +616,17 @@ def decorate(rng, root):
                 d = ET.Element("metadefault")
                 d.text = "computed"
                 el.append(d)
+    # an example / a description at both ends of an 'extends' chain (each type may have its own)
+    by_name = {(st.get("name") or "").lower(): st for st in root.findall("sectiontype")}
+    for st in root.findall("sectiontype"):
+        base = by_name.get((st.get("extends") or "").lower())
+        if base is not None and rng.random() < 0.3:
+            for el in (st, base):
+                for tag in ("example", "description"):
+                    if el.find(tag) is None:
+                        d = ET.Element(tag)
+                        d.text = "%s of %s" % (tag, el.get("name"))
+                        el.insert(0, d)
 
 
 _SHARED = {}
